@@ -350,6 +350,55 @@ class SavePoint:
         return V, len(s1), hist
 
 
+class GetSim:
+    """Simulationarchive.getSimulation(t): documented to continue bit by bit (keep_unsynchronized=1 is its default for that reason)"""
+    def __init__(self, rebound):
+        self.rebound = rebound
+
+    def __call__(self, task):
+        cfg, k, mode = task
+        rb.quiet()
+        rebound = self.rebound
+        lab = lattice.cfg_label(cfg) + ("/" + cfg["x"] if cfg.get("x") else "")
+        fd, fn = tempfile.mkstemp(prefix="c05g-", suffix=".bin", dir=os.environ.get("VERIF_TMP", "/var/tmp"))
+        os.close(fd)
+        os.unlink(fn)
+        V = []
+        try:
+            A, P = lattice.make_sim(rebound, cfg)
+            if cfg.get("x") == "var1":
+                v = A.add_variation()
+                v.particles[1].x = 1.0
+                v.particles[2].vy = 0.5
+            A.steps(k)
+            A.save_to_file(fn)
+            A.steps(2)
+            A.save_to_file(fn)
+            t1 = A.t
+            sa = rebound.Simulationarchive(fn)
+            B = sa.getSimulation(t1, mode=mode)
+            lattice.reattach(B, cfg["integ"], cfg.get("o", {}))
+            if B.t != t1:
+                V.append(("getsim:time:%s" % mode, "getSimulation(%r, mode=%s) returned t=%r [%s]" % (t1, mode, B.t, lab)))
+                return V
+            for more in (1, 2):
+                A.steps(more)
+                B.steps(more)
+                a = A.copy()
+                lattice.reattach(a, cfg["integ"], cfg.get("o", {}))
+                a.synchronize()
+                B.synchronize()
+                if rb.particles_raw(a) != rb.particles_raw(B) or a.t != B.t:
+                    d = max(abs(getattr(p, c) - getattr(q, c)) for p, q in zip(a.particles, B.particles) for c in ("x", "y", "z", "vx", "vy", "vz"))
+                    V.append(("getsim:continue:%s:%s:%s" % (mode, cfg["integ"] + ("/" + cfg["x"] if cfg.get("x") else ""), "rounding" if d < 1e-12 else "large"),
+                              "the simulation obtained with getSimulation(t of snapshot 1, mode=%s) does not continue bit for bit: largest coordinate difference %.3g after %d more steps [%s, archive started after %d steps]" % (mode, d, more, lab, k)))
+                    break
+        finally:
+            if os.path.exists(fn):
+                os.unlink(fn)
+        return V
+
+
 def configs(tier, avx):
     cfgs = []
     pts = lattice.integrator_points("full", avx=avx)
@@ -455,6 +504,31 @@ def run(ctx):
     # WHFast512 exists only in the AVX512 build: its part runs in a process of its own (mc/w512.py)
     from .. import w512
     n_w512 = w512.run(ctx, "C05")
+    # ---- (C) Simulationarchive.getSimulation
+    gt = []
+    for integ, o in lattice.integrator_points("rep"):
+        for x in (None, "var1"):
+            if x and integ not in ("ias15", "whfast", "leapfrog", "bs"):
+                continue
+            if x and integ == "whfast" and (o.get("coordinates", "jacobi") != "jacobi" or o.get("kernel", "default") != "default"):
+                continue
+            # bit-by-bit continuation after the synchronisation inside getSimulation is what keep_unsynchronized exists for; EOS and
+            # MERCURIUS have no such option, in their deferred modes only sa[k] (no synchronisation) continues exactly (part B)
+            if integ in ("eos", "mercurius") and o.get("safe_mode", 1) == 0:
+                continue
+            for k in (1, 3):
+                for mode in ("snapshot", "close"):
+                    cfg = {"integ": integ, "o": o, "sys": "S3", "tp": 0, "dtsign": 1}
+                    if x:
+                        cfg["x"] = x
+                    gt.append((cfg, k, mode))
+    gres = pool.run_tasks(GetSim(rebound), gt, timeout=120, chunk=2)
+    for t, r in zip(gt, gres):
+        if r[0] != "ok":
+            ctx.violation("getsim-%s:%s" % (r[0], t[0]["integ"]), "%s in getSimulation case %s: %s" % (r[0], t, str(r[1])[-400:]), {"kind": "getsim", "task": list(t)})
+            continue
+        for sig, what in r[1]:
+            ctx.violation(sig, what, {"kind": "getsim", "task": list(t)})
     cov = {
         "whfast512_cases": n_w512,
         "states": len(states), "transitions": trans + nA, "traces_validated_against_impl": trans + nA,
